@@ -84,3 +84,21 @@ Theorem C06_parent_apply_per_key : forall parent ev parent',
   clookup (key_of (ev_obj ev)) parent' = papply (clookup (key_of (ev_obj ev)) parent) ev.
 Proof. exact parent_apply_per_key. Qed.
 Print Assumptions C06_parent_apply_per_key.
+
+(* the racing case for EVERY well-formed parent history: the events need only
+   be well-formed deltas of the parent's own cache (C02) — an object may be
+   deleted and re-created at a lower version, which hist_ok above excludes *)
+From KC Require Import FilterRaceGen.
+Theorem C06_fsub_converges_general : forall F p0 hist l s,
+  hist_wf p0 hist -> rrun (rinit F p0 hist) l = Some s ->
+  r_ready s = true -> r_pend s = [] ->
+  r_cur s = fview (r_F s) (r_P s).
+Proof. exact fsub_converges_general. Qed.
+Print Assumptions C06_fsub_converges_general.
+
+Theorem C06_fsub_converges_general_to_final : forall F p0 hist l s,
+  hist_wf p0 hist -> rrun (rinit F p0 hist) l = Some s ->
+  r_ready s = true -> consumed_all s ->
+  r_cur s = fview (r_F s) (pfold p0 hist).
+Proof. exact fsub_converges_general_to_final. Qed.
+Print Assumptions C06_fsub_converges_general_to_final.
